@@ -291,7 +291,8 @@ PROPS = {
     ),
     'C20': dict(
         tv=dict(module='VariantHeapTrace', cfg='VariantHeapTrace.cfg'),
-        mc=[dict(module='VariantHeapMC', cfg='VariantHeapMC.cfg')],
+        mc=[dict(module='VariantHeapMC', cfg='VariantHeapMC.cfg'),
+            dict(module='VariantHeapImplMC', cfg={'quick': 'VariantHeapImplMC.quick.cfg', 'thorough': 'VariantHeapImplMC.thorough.cfg'}, workers=8, heap='12g')],
         gen=[dict(module='VariantHeapGen', tag='cover', cfg={'quick': 'VariantHeapGen.quick.cfg', 'thorough': 'VariantHeapGen.thorough.cfg'}, heap='8g'),
              dict(module='VariantHeapGen', tag='sim', cfg='VariantHeapGen.sim.cfg', sim={'quick': (200, 28), 'thorough': (4000, 28)})],
         corrupt=[('change the reported type of a slot', _sloftype)],
